@@ -10,6 +10,7 @@ package main
 
 import (
 	"context"
+	"errors"
 	"fmt"
 	"io"
 	"log"
@@ -30,15 +31,47 @@ const e2eNodes = 5
 
 type ctxKey struct{}
 
+// trigCtx is a context the harness ends with the error of its choice (cancellation or deadline)
+type trigCtx struct {
+	context.Context
+	mu   sync.Mutex
+	done chan struct{}
+	err  error
+}
+
+func newTrigCtx(parent context.Context) *trigCtx {
+	return &trigCtx{Context: parent, done: make(chan struct{})}
+}
+func (c *trigCtx) Done() <-chan struct{} { return c.done }
+func (c *trigCtx) Err() error {
+	c.mu.Lock()
+	defer c.mu.Unlock()
+	return c.err
+}
+func (c *trigCtx) trigger(err error) {
+	c.mu.Lock()
+	defer c.mu.Unlock()
+	if c.err == nil {
+		c.err = err
+		close(c.done)
+	}
+}
+
 type e2eCase struct {
 	sc     *script
 	rc     *runCtx
 	cancel context.CancelFunc
-	held   []*node.Held
-	byTag  map[int64]*outSpec
-	pos    int
-	delays []time.Duration // free-running speculative mode
-	key    string          // the value bound to the statement: identifies the case at the nodes
+	tctx   *trigCtx // sequential cases: ended by the scripted nodes
+	// cancellation bookkeeping
+	stmt        string // the statement of this case
+	prepStage   bool   // context errors strike while the PREPARE is outstanding (statement unknown to the host)
+	triggered   error  // the context error the case was ended with
+	afterCancel int    // requests of this case that reached a node after that
+	held        []*node.Held
+	byTag       map[int64]*outSpec
+	pos         int
+	delays      []time.Duration // free-running speculative mode
+	key         string          // the value bound to the statement: identifies the case at the nodes
 
 	// controlled speculative mode: which execution picked which host (hosts are distinct)
 	controlled bool
@@ -212,6 +245,11 @@ func (e *e2e) handle(id int, nd *node.Node) node.Handler {
 			return
 		}
 		rc.mu.Lock()
+		if cs.triggered != nil {
+			cs.afterCancel++
+		}
+		rc.mu.Unlock()
+		rc.mu.Lock()
 		out := rc.nextOutcomeLocked()
 		rc.started++
 		rc.mu.Unlock()
@@ -245,12 +283,13 @@ func (e *e2e) handle(id int, nd *node.Node) node.Handler {
 		switch {
 		case o == nil:
 			nd.Default(c, req)
-		case o.kind == 0:
-			// the application cancels the query while the request is outstanding; the answer never comes
+		case o.kind <= 1:
+			// the application cancels the query (or its deadline passes) while the request is outstanding;
+			// the answer never comes
 			e.mu.Lock()
 			cs.held = append(cs.held, c.Hold(req, node.Void{}))
 			e.mu.Unlock()
-			cs.cancel()
+			cs.endContext(o)
 		case o.kind == 6 && o.a == 0:
 			// request timeout: the answer never comes (released when the case is over)
 			e.mu.Lock()
@@ -284,6 +323,58 @@ func reqKey(req *node.Request) (string, uint16) {
 		return string(req.Batch.Statements[0].Values[0].Bytes), req.Batch.Consistency
 	}
 	return "", 0
+}
+
+func (cs *e2eCase) endContext(o *outSpec) {
+	cs.rc.mu.Lock()
+	cs.triggered = o.err
+	cs.rc.mu.Unlock()
+	if cs.tctx != nil {
+		cs.tctx.trigger(o.err)
+	} else {
+		cs.cancel()
+	}
+}
+
+// handlePrepare: in a prepare-stage case the statement is new to every host, so every attempt starts
+// with a PREPARE; when the attempt's scripted outcome is a context error, it strikes now: the PREPARE is
+// never answered and the context ends
+func (e *e2e) handlePrepare(id int, nd *node.Node) node.Handler {
+	return func(c *node.ServerConn, req *node.Request) {
+		e.mu.Lock()
+		cs := e.cur
+		e.mu.Unlock()
+		if cs == nil || !cs.prepStage || req.Prepare == nil || req.Prepare.Statement != cs.stmt {
+			nd.Default(c, req)
+			return
+		}
+		rc := cs.rc
+		rc.mu.Lock()
+		if cs.triggered != nil {
+			cs.afterCancel++
+			rc.mu.Unlock()
+			nd.Default(c, req)
+			return
+		}
+		next := rc.sc.dflt
+		if rc.nDone < len(rc.sc.outs) {
+			next = rc.sc.outs[rc.nDone]
+		}
+		if next.o == nil || next.o.kind > 1 {
+			rc.mu.Unlock()
+			nd.Default(c, req)
+			return
+		}
+		rc.nextOutcomeLocked()
+		rc.started++
+		rc.mu.Unlock()
+		rc.logNode(ev{kind: evExec, host: id, cons: rc.sc.cons0})
+		rc.logNode(ev{kind: evDone, host: id, o: next.o, still: true})
+		e.mu.Lock()
+		cs.held = append(cs.held, c.Hold(req, node.Error{Code: node.ErrServer, Message: "held prepare"}))
+		e.mu.Unlock()
+		cs.endContext(next.o)
+	}
 }
 
 func tagMsg(tag int64) string { return "c13-tag-" + strconv.FormatInt(tag, 10) }
@@ -333,6 +424,9 @@ func newE2E(h *harness, timeout time.Duration, defaultIdem bool) (*e2e, error) {
 		nd := e.net.AddNode(fmt.Sprintf("10.0.0.%d:9042", i))
 		nd.AddRule(node.Rule{Match: node.MatchStatement("FROM c13kv", node.OpExecute), Do: e.handle(i, nd)})
 		nd.AddRule(node.Rule{Match: func(r *node.Request) bool { return r.Batch != nil }, Do: e.handle(i, nd)})
+		nd.AddRule(node.Rule{Match: func(r *node.Request) bool {
+			return r.Prepare != nil && strings.Contains(r.Prepare.Statement, "FROM c13kv WHERE k = ? LIMIT")
+		}, Do: e.handlePrepare(i, nd)})
 		contact = append(contact, fmt.Sprintf("10.0.0.%d", i))
 	}
 	e.net.SetKeyspace("demo", node.Keyspace{Replication: node.NetworkTopologyStrategy(map[string]int{"dc1": 1}), DurableWrites: true})
@@ -408,7 +502,7 @@ func (g *gen) e2eScript() *script {
 		var o *outSpec
 		switch x := r.Intn(100); {
 		case x < 6:
-			o = mkOut(0, 0, 0, uniq)
+			o = mkOut(r.Intn(2), 0, 0, uniq)
 		case x < 22:
 			o = mkOut(3, r.Pick(0, 1, 2), 0, uniq)
 		case x < 46:
@@ -441,15 +535,26 @@ func (e *e2e) run(sc *script, kind string) {
 
 // runCase returns false when the case had to be discarded (a request timed out that no node left unanswered)
 func (e *e2e) runCase(sc *script, kind string) bool {
+	return e.runCaseAt(sc, kind, false)
+}
+
+// runCaseAt: prepStage = context errors strike during the PREPARE round trip (queries only)
+func (e *e2e) runCaseAt(sc *script, kind string, prepStage bool) bool {
+	if prepStage {
+		sc.batch = false
+	}
 	e.h.realise(sc, !sc.batch, true, e.defaultIdem)
 	if sc.src.batch && len(sc.src.entries) == 0 {
 		sc.src.entries = []gocql.VerifC13Entry{{Set: true, Idempotent: true}} // an empty BATCH carries no case key
 	}
 	rc := newRunCtx(sc, 0)
-	ctx, cancel := context.WithCancel(context.WithValue(context.Background(), ctxKey{}, 1))
-	defer cancel()
+	ctx := newTrigCtx(context.WithValue(context.Background(), ctxKey{}, 1))
+	defer ctx.trigger(context.Canceled)
 	e.seq++
-	cs := &e2eCase{sc: sc, rc: rc, cancel: cancel, byTag: map[int64]*outSpec{}, key: fmt.Sprintf("case-%d", e.seq)}
+	cs := &e2eCase{sc: sc, rc: rc, tctx: ctx, byTag: map[int64]*outSpec{}, key: fmt.Sprintf("case-%d", e.seq), stmt: e2eStmt, prepStage: prepStage}
+	if prepStage {
+		cs.stmt = fmt.Sprintf("SELECT v FROM c13kv WHERE k = ? LIMIT %d", 100000+e.seq) // unknown to every host
+	}
 	for _, c := range sc.outs {
 		if c.o != nil {
 			cs.byTag[c.o.tag] = c.o
@@ -517,7 +622,7 @@ func (e *e2e) runCase(sc *script, kind string) bool {
 		}
 		rc.mu.Unlock()
 	} else {
-		q := e.sess.Query(e2eStmt, cs.key).WithContext(ctx).Consistency(gocql.Consistency(sc.cons0))
+		q := e.sess.Query(cs.stmt, cs.key).WithContext(ctx).Consistency(gocql.Consistency(sc.cons0))
 		if sc.src.override != nil {
 			q.Idempotent(*sc.src.override)
 		}
@@ -555,6 +660,20 @@ func (e *e2e) runCase(sc *script, kind string) bool {
 		return false
 	}
 	e.h.evalSeq(sc, rc, res, pan, caller, kind)
+	// context cancellation stops further attempts: nothing of this query reaches any node afterwards, and
+	// the caller gets the context's own error value
+	rc.mu.Lock()
+	trig, after := cs.triggered, cs.afterCancel
+	rc.mu.Unlock()
+	if trig != nil {
+		idx := e.h.o.NCases() - 1
+		if after > 0 {
+			e.h.o.Violate(idx, "ctx-stops", "", fmt.Sprintf("%d request(s) (PREPARE/EXECUTE/BATCH) of the query reached the nodes after its context ended with %v", after, trig), sc.describe())
+		}
+		if res.Err != trig {
+			e.h.o.Violate(idx, "ctx-error-identity", "", fmt.Sprintf("the context ended with %v but the caller got %v (errors.Is: %v); Attempts() = %d", trig, res.Err, errors.Is(res.Err, trig), res.Attempts), sc.describe())
+		}
+	}
 	return true
 }
 
@@ -727,11 +846,11 @@ func (g *gen) controlledE2EScript() *script {
 		}
 	}
 	for i := range sc.outs {
-		if sc.outs[i].o != nil && sc.outs[i].o.kind == 0 {
+		if sc.outs[i].o != nil && sc.outs[i].o.kind <= 1 {
 			sc.outs[i].o = nil
 		}
 	}
-	if sc.dflt.o != nil && sc.dflt.o.kind == 0 {
+	if sc.dflt.o != nil && sc.dflt.o.kind <= 1 {
 		sc.dflt.o = nil
 	}
 	sc.a0 = int(r.Pick(0, 0, 1))
@@ -786,4 +905,35 @@ func (e *e2e) runControlled(sc *script, sched []int, cancelAt int, kind string) 
 	e.mu.Lock()
 	e.cur = nil
 	e.mu.Unlock()
+}
+
+// prepCancelScript: a few failing attempts on distinct hosts (RetryNextHost), then the context ends while
+// the PREPARE of the next attempt is outstanding; a budget that would allow going on
+func (g *gen) prepCancelScript() *script {
+	r := g.r
+	sc := g.e2eScript()
+	perm := []int{1, 2, 3, 4, 5}
+	for i := len(perm) - 1; i > 0; i-- {
+		j := r.Intn(i + 1)
+		perm[i], perm[j] = perm[j], perm[i]
+	}
+	sc.hosts = nil
+	for _, id := range perm[:3+r.Intn(3)] {
+		sc.hosts = append(sc.hosts, gocql.VerifC13Host{ID: id})
+	}
+	sc.pol = polDesc{kind: int(r.Pick(1, 1, 2)), n: int(r.Pick(2, 4, 6))}
+	if r.Chance(10) {
+		sc.pol = polDesc{kind: 0}
+	}
+	sc.a0 = 0
+	j := r.Intn(3)
+	sc.outs = nil
+	for i := 0; i < j; i++ {
+		k := r.Intn(len(e2eOtherCodes))
+		sc.outs = append(sc.outs, oc{&outSpec{kind: 6, a: int64(100 + k), tag: int64(i + 1), wire: e2eOtherCodes[k]}, true})
+	}
+	sc.outs = append(sc.outs, oc{mkOut(r.Intn(2), 0, 0, 0), true})
+	k := r.Intn(len(e2eOtherCodes))
+	sc.dflt = oc{&outSpec{kind: 6, a: int64(100 + k), tag: 500, wire: e2eOtherCodes[k]}, true}
+	return sc
 }
